@@ -11,7 +11,10 @@ Tie: (a) the pure-Python body `_poisson.py_func` is run with np.random.seed/rand
 stream it consumes; the same stream is replayed through the Coq model on PrimFloat inside Coq (cos/sin/pow(.,.5) as
 tables of the values libm returned) and the final mask and the number of draws are compared exactly;
 (b) the slope search is replayed inside Coq on the actual accelerations observed in the real `poisson` (read from its
-frame) and the outcome, number of `_poisson` calls and the exact slopes are compared; (c) crop + sum on small masks.
+frame) and the outcome, number of `_poisson` calls and the exact slopes are compared; (c) crop + sum on small masks; (d) the
+radius grid r and the radius arrays of the first slope (read from the frame / the arguments of the first `_poisson` call) against
+coq/model/PoissonFront.v on PrimFloat, bit for bit; (e) tools/translate_poisson.py regenerates both functions from the source text
+(gen/Gen_poisson.v) with lemmas `generated = hand model`.
 
 Oracle on the implementation (jitted, end to end, inside a watchdog subprocess): entries in {0,1}, requested dtype and
 shape, acceleration within tol or ValueError, calibration block sampled, nothing outside the ellipse when crop_corner,
@@ -179,6 +182,9 @@ def e2e_one(samp, c):
             _sys.stdout.flush()
         if trace["ind"] is None:
             trace["ind"] = (np.asarray(f.f_locals["r"]) < 1)
+            if c["ny"] * c["nx"] <= 600:       # the radius grid and the radii of the first slope, for the front-end correspondence
+                trace["front"] = {"slope": sl, "r": np.asarray(f.f_locals["r"], float).ravel().tolist(),
+                                  "rx": np.asarray(a[3], float).ravel().tolist(), "ry": np.asarray(a[4], float).ravel().tolist()}
         m = jit(*a)
         if c["ny"] * c["nx"] <= 600:
             trace["raw"].append(np.array(m, copy=True))
@@ -225,6 +231,7 @@ def e2e_one(samp, c):
     st1 = np.random.get_state()
     out["state_unchanged"] = bool(st0[0] == st1[0] and np.array_equal(st0[1], st1[1]) and st0[2:] == st1[2:])
     out["slopes"] = trace["slopes"]
+    out["front"] = trace.get("front")
     out["nev"] = len(trace["slopes"])
     bad = []
     if out["status"] == "returned":
@@ -450,6 +457,10 @@ def e2e_class(c):
 # ---------------------------------------------------------------- the check
 def run(ctx):
     ctx.source_hash("sigpy/mri/samp.py")
+    # tie by translation (DESIGN 2.8): gen/Gen_poisson.v is regenerated from samp.py (translate_all job "poisson") and compiled;
+    # its lemmas state generated _poisson / poisson == coq/model/Poisson.v + model/PoissonFront.v (for every POps)
+    from tools import translate_poisson
+    tie_broken = translate_poisson.tie(ctx)    # obligations "translate:sigpy/mri/samp.py (...)", "tie:generated == hand model (...)"
     proof_ok = ctx.prove("Prop_C18.v")
     sp = core.import_sigpy()
     import sigpy.mri.samp as samp
@@ -520,7 +531,7 @@ def run(ctx):
     # ---- (3) collect the end-to-end results
     res = fut.result()
     pool.shutdown()
-    e2e_bad, search_cases, crop_cases = [], [], []
+    e2e_bad, search_cases, crop_cases, front_cases = [], [], [], []
     n_ret = n_val = 0
     for c, r in zip(e2e_cases, res):
         cls = e2e_class(c)
@@ -534,19 +545,30 @@ def run(ctx):
             search_cases.append(dict(case=c, res=r, expr=search_expr(c, r)))
         elif r["status"] in ("returned", "valueerror") and c["accel"] > 1:
             e2e_bad.append((c, dict(r, bad=["could not observe the search (calls %d, accelerations %d)" % (r["nev"], len(r["actuals"]))])))
+        if r.get("front") and all(np.all(np.isfinite(r["front"][k])) for k in ("r", "rx", "ry")):
+            fr = r["front"]
+            front_cases.append(dict(case=c, res=r, expr="chk_front %d %d %d %d %s %s %s %s" % (
+                c["ny"], c["nx"], c["cy"], c["cx"], L.flt(fr["slope"]), L.flist(fr["r"]), L.flist(fr["rx"]), L.flist(fr["ry"]))))
         if r.get("small"):
             s = r["small"]
             crop_cases.append(dict(case=c, res=r, expr="chk_crop_sum %d %d %s %s %s %d" % (
                 c["nx"], c["ny"], L.zlist(s["raw"]), L.zlist(s["ind"]), L.zlist(s["final"]), int(r["sum"]))))
-    sfail, cfail, s_ok = [], [], True
+    sfail, cfail, ffail, s_ok = [], [], [], True
     try:
         sfail = L.run_bool_cases(ctx, "c18s", HEADER, search_cases, per_file=100)
         cfail = L.run_bool_cases(ctx, "c18c", HEADER, crop_cases, per_file=20) if crop_cases else []
+        # the lines model/Poisson.v leaves abstract (radius grid, radii of a slope) against model/PoissonFront.v, exactly
+        if front_cases and not ctx.make(["run/RunC18Front.vo"]):
+            raise RuntimeError("run/RunC18Front.vo does not build")
+        ffail = L.run_bool_cases(ctx, "c18f", HEADER.replace("run.RunC18.", "run.RunC18 run.RunC18Front."), front_cases,
+                                 per_file=4) if front_cases else []
     except RuntimeError as e:
         s_ok = False
         ctx.notes.append("search correspondence could not run: %s" % str(e)[:500])
     ctx.obligation("corr:poisson slope search == model (%d searches)" % len(search_cases), s_ok and not sfail)
     ctx.obligation("corr:crop+sum == model (%d masks)" % len(crop_cases), s_ok and not cfail)
+    ctx.obligation("corr:radius grid r and radii of the first slope == model/PoissonFront.v, bit for bit (%d grids)" % len(front_cases),
+                   s_ok and not ffail and bool(front_cases))
     known_only = lambda c, r: all(b.startswith("ellipse:") and (c["cy"] or c["cx"]) for b in r["bad"])      # noqa
     hard_bad = [(c, r) for c, r in e2e_bad if not known_only(c, r)]
     ctx.obligation("oracle:poisson end-to-end (%d calls: %d returned, %d ValueError)" % (len(e2e_cases), n_ret, n_val), not hard_bad)
@@ -563,7 +585,7 @@ def run(ctx):
         "non-trivial = more than 10 draws and at least one sample.  end-to-end: corpus (F11 input, test-suite inputs, accel<=1) + "
         "seeded shapes 16..128 square/rectangular, accel in (1,12], calib 0..n/3, tol 1e-3..0.5, 6 dtypes, crop on/off, seeds incl. None, "
         "random prior numpy RNG state; non-trivial = a mask was returned; distinct = distinct argument tuples")
-    ctx.coverage["disagreements_model_vs_impl"] = len(failing) + len(sfail) + len(cfail)
+    ctx.coverage["disagreements_model_vs_impl"] = len(failing) + len(sfail) + len(cfail) + len(ffail)
     ctx.coverage["disagreements_oracle_vs_impl"] = len(hard_bad) + len(py_bad)
     ctx.coverage["e2e_returned"] = n_ret
     ctx.coverage["e2e_valueerror"] = n_val
@@ -584,7 +606,7 @@ def run(ctx):
             ctx.violation("poisson(%s, %s): %s" % ((c["ny"], c["nx"]), c["accel"], b),
                           {"kind": "e2e", "case": c, "expected": "mask in {0,1} with |size/sum - accel| < tol, calibration sampled, "
                            "cropped, reproducible, RNG state untouched; or ValueError; within the time limit",
-                           "observed": {k: v for k, v in r.items() if k != "small"}}, signature=sig)
+                           "observed": {k: v for k, v in r.items() if k not in ("small", "front")}}, signature=sig)
     for d in py_bad:
         sig = "C18:kernel:" + d["bad"][0].split(" ")[0]
         if sig in seen:
@@ -601,20 +623,21 @@ def run(ctx):
             "kind": "kernel", "broken": "corr:_poisson", "case": d["case"], "observed": d["m"].astype(int).tolist(),
             "draws": d["ndraw"], "expected": "the Coq model replayed on the same stream yields the same mask and consumes the same draws"},
             found_input=bool(d["bad"]), signature="C18:corr:kernel")
-    for lst, name in ((sfail, "search"), (cfail, "crop")):
+    for lst, name in ((sfail, "search"), (cfail, "crop"), (ffail, "front")):
         for i in lst:
-            d = (search_cases if name == "search" else crop_cases)[i]
+            d = {"search": search_cases, "crop": crop_cases, "front": front_cases}[name][i]
             sig = "C18:corr:" + name
             if sig in seen:
                 break
             seen.add(sig)
             ctx.violation("model and poisson() disagree on the %s" % name, {
                 "kind": "e2e", "broken": "corr:" + name, "case": d["case"],
-                "observed": {k: v for k, v in d["res"].items() if k != "small"},
-                "expected": "model search on the observed accelerations: same outcome, number of calls and slopes"},
+                "observed": {k: v for k, v in d["res"].items() if k not in ("small", "front")},
+                "expected": "model search on the observed accelerations: same outcome, number of calls and slopes; crop and sum; "
+                            "radius grid and radii of the first slope equal to model/PoissonFront.v"},
                 found_input=bool(d["res"]["bad"]), signature=sig)
-    if (not proof_ok or not corr_ok or not s_ok) and not ctx.violations:
-        broken = getattr(ctx, "broken_proof", {"theorem": "corr:coq-run", "log": "; ".join(ctx.notes)[-1500:]})
+    if (not proof_ok or not corr_ok or not s_ok or tie_broken) and not ctx.violations:
+        broken = getattr(ctx, "broken_proof", tie_broken or {"theorem": "corr:coq-run", "log": "; ".join(ctx.notes)[-1500:]})
         ctx.violation("proof obligation no longer checks: %s" % broken.get("theorem"), {"kind": "proof", "broken": broken},
                       found_input=False, signature="C18:proof")
     ctx.trusted += TRUSTED
@@ -637,6 +660,7 @@ def replay(obj):
         return 1 if bad else 0
     r = run_e2e([c], CALL_TIMEOUT, 1)[0]
     r.pop("small", None)
+    r.pop("front", None)
     for k in ("slopes", "actuals"):
         if len(r.get(k, [])) > 12:
             r[k] = r[k][:6] + ["... %d more ..." % (len(r[k]) - 12)] + r[k][-6:]
@@ -647,7 +671,10 @@ def replay(obj):
 TRUSTED = [
     "Coq 8.16.1 kernel + vm_compute (no native_compute, no extraction); Coq Reals axioms only in the non-vacuity instance",
     "hand model coq/model/Poisson.v of _poisson / poisson (line by line, one term for PrimFloat and for the abstract ops), "
-    "tied by this run's stream-replay and search-replay correspondences",
+    "tied by this run's stream-replay and search-replay correspondences and, since tools/translate_poisson.py, by gen/Gen_poisson.v: "
+    "_poisson and poisson regenerated from the source text on every run with lemmas `generated = hand model` (model/Poisson.v; the "
+    "lines it leaves abstract -- parameter check, radius grid, radii, crop region, midpoint -- against model/PoissonFront.v); trusted "
+    "there: the translator's reading of the accepted Python fragment (notes/translate_poisson.md)",
     "libm cos/sin/pow(.,0.5) enter the replay as tables of the values returned on this run; x**2 is modelled as x*x; "
     "lib/FloatRun.float_to_Z_floor/ceil, Z_to_float; int(x) = truncation",
     "the float grid of the bisection is abstract: comparisons induced by an integer rank and rank lo <= rank(mid) <= rank hi "
